@@ -221,3 +221,4 @@ def check_tagged_ids(res: Result, lcs: List[LaunchCtx]) -> int:
           sample={"kernel": lc.name, "compare": show(t)[:80]},
         )
   return n
+
